@@ -4,7 +4,7 @@ import json, os, subprocess
 HERE = os.path.dirname(os.path.dirname(os.path.abspath(__file__)))
 
 CHECKS = {
- "C01": dict(cat="exploration", tech="stateful property-based testing (proptest op sequences + bounded-exhaustive small scope) of the real pub/sub router future against a delivery reference oracle, with harness-owned mock peers and scheduler",
+ "C01": dict(cat="exploration", tech="stateful property-based testing (proptest op sequences + bounded-exhaustive small scope) of the real pub/sub router future against a delivery reference oracle, with harness-owned mock peers and scheduler; loopback legs against the real server (isolation of confusable names, real flow-control back-pressure, simultaneous first registrations)",
      text="Generated schedules (registrations, sends, back-pressure, wake-ups) are run against the real pubsub::Topic/FanoutMany code and every subscriber's wire is compared with a per-publisher contiguous-run oracle; random search plus complete enumeration of all op sequences up to a small length. Exploration, not proof: a pass means no counterexample among the generated schedules.",
      note="Subscriber sinks are a model of FramedWrite over a flow-controlled stream; quinn itself is only exercised by the loopback legs. Cross-publisher order unconstrained.", ref="§5 C01"),
 
@@ -17,12 +17,12 @@ CHECKS = {
  "C09": dict(cat="exploration", tech="stateful PBT of both router futures under a strictly wake-driven harness executor with an inner-poll counter (spin bound) and a quiescence oracle; exhaustive enumeration of one-sided populations",
      text="The harness owns every wake-up: the router is re-polled only when it woke its waker. Spin = more mock calls inside one poll than max(50000,16*(work+2)*(peers+4)); sleeping on undone work = at quiescence some registered stream still has queued items, some healthy sink is unflushed, some registration was not processed, or closing the channel does not complete the future.",
      note="A loop that calls no mock is only caught by the 120 s watchdog (exit 2). Mocks wake exactly the last waker they were given.", ref="§5 C09"),
- "C10": dict(cat="exploration", tech="stateful PBT of the request/reply router against a single-binding reference model (FIFO registration, settle-separated certainty), incl. blocked rejected-replier sinks, plus bounded-exhaustive small scope and a probe exchange",
+ "C10": dict(cat="exploration", tech="stateful PBT of the request/reply router against a single-binding reference model (FIFO registration, settle-separated certainty), incl. blocked rejected-replier sinks, plus bounded-exhaustive small scope and a probe exchange; one leg with failing sinks (unclean departures)",
      text="Sequences of replier registrations/departures interleaved with traffic; a replier registered while another is surely bound must see exactly [Error(REPLIER_ALREADY_BOUND)] then a completed close and no request; a replier registered after all earlier ones surely left must be bound and served; requests never reach two repliers; no half-rejected replier in any interleaving.",
      note="'Surely' means separated by a Settle with no sink blocked; in between either verdict (bound / properly rejected) is accepted.", ref="§5 C10"),
- "C16": dict(cat="exploration", tech="stateful PBT with the registration-channel close injected at a generated point of router histories (both routers), termination + flush-before-finish oracle, bounded-exhaustive small scope",
+ "C16": dict(cat="exploration", tech="stateful PBT with the registration-channel close injected at a generated point of router histories (both routers), termination + flush-before-finish oracle, also with subscriber sinks failing before/during the final flush, close inside a poll, bounded-exhaustive small scope; SIGINT against the real server (loopback)",
      text="close_channel() (what Server::shutdown calls) is injected at any point (idle, right after a registration, with buffered items and blocked sinks, one-sided populations); once sinks accept data the future must complete within a bounded number of polls and, for pub/sub, everything pulled from a publisher must be on every healthy adopted subscriber's wire.",
-     note="World B does not include Server::shutdown's join_all (needs a signal); for req/rep only termination is claimed.", ref="§5 C16"),
+     note="Server::shutdown itself is exercised by the sigint-loopback leg (the harness raises SIGINT in-process); for req/rep only termination is claimed.", ref="§5 C16"),
 
  "C05": dict(cat="exploration", tech="round-trip and chunking-invariance property-based testing of the wire codec over generated frames of all eight kinds, sizes computed to sit exactly at the limit, adversarial bare headers; libFuzzer target with the oracle inside (thorough)",
      text="encode appends exactly 9+get_length() bytes with a truthful big-endian prefix and type byte; decode of those bytes yields an equal frame and consumes exactly them; any chunking of a concatenated stream (incl. a trailing partial frame) decodes to the same sequence; over-limit payloads are refused by the encoder without writing, over-limit length prefixes by the decoder with only the 9 header bytes present; unbatch(batch(v)) == v.",
@@ -30,7 +30,7 @@ CHECKS = {
  "C06": dict(cat="exploration", tech="mutation-based property-based testing of every decoder and the client decode pipelines inside a child process with a counting allocator (abort/OOM attributable to the input); libFuzzer with ASan and malloc limit (thorough)",
      text="Random bytes and valid encodings that are truncated, bit-flipped, spliced and given adversarial length/count fields are fed to frame decoding, unbatching, the three payload codecs, the five decompressors and the subscriber/requestor pipelines; the worker must survive, not panic and not request memory beyond a fixed cap plus 32x(input+decoded size).",
      note="'Unrelated to input size' is operationalised by caps of 64 MiB (own decoders) / 512 MiB (pipelines with a decompression library).", ref="§5 C06"),
- "C07": dict(cat="exploration", tech="differential property-based testing of TopicName parsing/creation against a hand-written reference grammar over generated boundary strings and arbitrary Unicode; wire-level registration PBT against the real server (isolation, INVALID_TOPIC_NAME)",
+ "C07": dict(cat="exploration", tech="differential property-based testing of TopicName parsing/creation against a hand-written reference grammar over generated boundary strings and arbitrary Unicode; wire-level registration PBT against the real server (isolation, INVALID_TOPIC_NAME, nothing served after a refusal)",
      text="For all-ASCII strings the verdict must equal the reference exactly (both directions); for non-ASCII strings structural violations must be rejected and no call may panic; accepted names print back, components and is_valid()/create() agree.",
      note="Non-ASCII word characters are a deliberate gray zone (regex \\w is Unicode-aware; the statement does not settle it).", ref="§5 C07"),
  "C13": dict(cat="exploration", tech="property-based testing of BackoffStrategy schedules against an exact 128-bit reference law with saturation semantics",
@@ -40,25 +40,25 @@ CHECKS = {
      text="decompress(compress(x)) == x for generated payload shapes and every supported algorithm/mode/level incl. presets, decode(encode(v)) == v for the three codecs, the full encode->batch->compress->decompress->unbatch->decode composition, and invalid UTF-8 / truncated bincode must be errors.",
      note="Levels outside the libraries' documented ranges are out of domain.", ref="§5 C14"),
 
- "C03": dict(cat="exploration", tech="configuration x workload property-based testing through the real client library and the real server over loopback QUIC: round-trip oracle with probe warm-up, in-band end marker and liveness probe",
-     text="Generated client configurations (codec x compression algorithm/level x batching size/interval x 1-3 subscribers) and workloads (item counts around the batch size, payload sizes from 0 to just under the frame limit) are published through selium::Publisher and must be yielded by every warmed-up selium::Subscriber exactly, in order, once; finish() must return Ok and everything accepted before it must arrive.",
+ "C03": dict(cat="exploration", tech="configuration x workload property-based testing through the real client library and the real server over loopback QUIC: round-trip oracle with probe warm-up, in-band end marker and liveness probe; Publisher::duplicate() at generated points",
+     text="Generated client configurations (codec x compression algorithm/level x batching size/interval x 1-3 subscribers) and workloads (item counts around the batch size, payload sizes from 0 to just under the frame limit) are published through selium::Publisher and must be yielded by every warmed-up selium::Subscriber exactly, in order, once; finish() must return Ok and everything accepted before it must arrive; the items of a duplicated publisher arrive exactly once and nothing of the original's is repeated.",
      note="Real multi-threaded runtime and UDP: the oracle is timing-independent; 'did not arrive' is only a violation when a later probe on the same path did arrive. Batch sizes above 100000 and batches over the frame limit are outside the generated domain.", ref="§5 C03"),
 
- "C04": dict(cat="exploration", tech="concurrent-call property-based testing of the real Requestor (streams x clones x calls) through the real server against a scripted wire-level replier (permuted, duplicated, late and missing replies) and, in part of the cases, a raw requestor forging the client streams' origin tag and request ids; reply = f(request) oracle",
-     text="Every call that returns Ok must carry f(its own request) whatever the reply order and however ids collide across streams; never/late answered calls must fail with the timeout error no earlier than the timeout and a late reply must not satisfy a later call; answered calls on long-timeout streams must succeed.",
+ "C04": dict(cat="exploration", tech="concurrent-call property-based testing of the real Requestor (streams x clones x calls) through the real server against a scripted wire-level replier (permuted, duplicated, late and missing replies) and, in part of the cases, a raw requestor forging the client streams' origin tag and request ids; reply = f(request) oracle; a leg with calls on clones after a recovered dead-path outage",
+     text="Every call that returns Ok must carry f(its own request) whatever the reply order and however ids collide across streams; never/late answered calls must fail with the timeout error no earlier than the timeout and a late reply must not satisfy a later call; answered calls on long-timeout streams must succeed; after an outage that both ends noticed, the requestor and its clones each get their own reply from a replier answering in reverse order.",
      note="Real runtime and UDP; on 400 ms-timeout streams a prompt reply may lose the race under load, so both outcomes are accepted there. Lateness is event-triggered, not a real-time distribution.", ref="§5 C04"),
- "C12": dict(cat="fault_enumeration", tech="generated outage scripts (cut point x failing attempts x failure mode x repetition) against a scripted fake server, exact reconnect-attempt accounting for the real client library",
-     text="For all four stream kinds the connection is cut at generated points; each outage has a scripted number of failing reconnect attempts (dropped connection or retryable refusal) or a non-retryable answer. The fake server counts registrations: k+1 on recovery with an identical registration frame and working traffic afterwards, exactly max_attempts then too-many-retries, immediate report of an unrecoverable answer; more outages than max_attempts distinguishes per-outage from lifetime budgets.",
-     note="The server side is scripted (the real server's part in recovery is C08/C10); outages are connection closes, not silent packet loss.", ref="§5 C12"),
+ "C12": dict(cat="fault_enumeration", tech="generated outage scripts (cut point x failing attempts x failure mode x repetition) against a scripted fake server, exact reconnect-attempt accounting for the real client library; plus generated dead-path outages (UDP relay black-holed past the QUIC idle timeout) between the real client and the real server",
+     text="For all four stream kinds the connection is cut at generated points; each outage has a scripted number of failing reconnect attempts (dropped connection or retryable refusal) or a non-retryable answer. The fake server counts registrations: k+1 on recovery with an identical registration frame and working traffic afterwards, exactly max_attempts then too-many-retries, immediate report of an unrecoverable answer; more outages than max_attempts distinguishes per-outage from lifetime budgets. Against the real server, behind a relay that drops everything for 16-19 s, every stream kind (and requestor clones calling concurrently) must work again within 45 s after the path is back.",
+     note="Attempt accounting uses the scripted server with connection closes; recovery against the real server uses silent packet loss in both directions (one or two outages per case).", ref="§5 C12"),
 
- "C11": dict(cat="exploration", tech="frame-script property-based testing against a fresh real server with raw wire peers (service probes per accepted stream, post-hoc health probes per topic, process-wide panic hook) plus stateful PBT of the real req/rep router fed with non-message and near-limit frames",
+ "C11": dict(cat="exploration", tech="frame-script property-based testing against a fresh real server with raw wire peers (service probes per accepted stream, post-hoc health probes per topic, process-wide panic hook) plus stateful PBT of the real req/rep router fed with non-message and near-limit frames; half-written first frames; simultaneous first registrations on new topics",
      text="Generated scripts of stream opens (all eight first-frame kinds, valid/invalid names, topics already used in the other pattern) and mid-stream frames of any kind incl. requests that only fit the wire limit before the routing tag is added; every stream must end up served in its role (verified by an exchange through that very stream) or explicitly refused with an error frame (which the client library reports from open()); no server task may panic and every touched topic must still serve fresh well-behaved peers.",
      note="Authenticated peer, well-formed frames only. 'Ok' precedes adoption by the router, so the harness settles bindings with probe exchanges before relying on their order.", ref="§5 C11"),
  "C17": dict(cat="fault_enumeration", tech="generated stall + registration-queue overflow on one topic of a fresh real server (non-reading subscriber, flooding publishers, b registrations before and n after the stall, n around and above the queue capacity), cross-topic probe with raw peers (fresh connections, the stuck publishers' connection, the connections with queued registrations) and the client library; variant where the stalled client's whole connection is out of flow-control credit",
      text="After topic A is provably stalled (its publishers are back-pressured) and more registrations than the router's queue holds are made on it, a publisher/subscriber pair on topic B (raw and through the client library) must still register and exchange a message; a control exchange on B before the stall must have succeeded in the same case.",
      note="One stall mechanism; the violating behaviour is a dead-lock, so the 12 s deadline is not a race.", ref="§5 C17"),
 
- "C15": dict(cat="exploration", tech="complete enumeration of the identity matrix (client identity x server identity x stream kind) with freshly generated keys per run, against the real server and client library / a raw certificate-less peer; CA-B identities are PEM full-chain files, CA-A identities single DER files",
+ "C15": dict(cat="exploration", tech="complete enumeration of the identity matrix (client identity x server identity x stream kind) with freshly generated keys per run, against the real server and client library / a raw certificate-less peer; CA-B identities are PEM full-chain files from a --no-expiry set, CA-A identities single DER files from a default set renewed in place eight times",
      text="Exactly the pairing where both sides hold certificates from the generated CA registers streams and completes an exchange; a client with a certificate from another CA, a self-signed one or none is never answered Ok and nothing it publishes reaches a trusted subscriber; a client never talks to a server whose certificate comes from another CA (isolated by a server that still verifies clients against the trusted CA).",
      note="Finite configuration space enumerated completely (exhaustive: true); expiry, revocation and key-usage variants are outside the property.", ref="§5 C15"),
 }
